@@ -312,6 +312,14 @@ theorem after_drop (src : Src) (p r : Nat) : src.after p r = (src.drop p).after 
   | fin xs tail => cases tail <;> simp [Src.after, Src.drop]
   | inf f => simp [Src.after, Src.drop]
 
+/-- (definitional) the model's own observation of the source passes the source check -/
+theorem checkSource_after (src : Src) (pulls r : Nat) : checkSource src pulls r (src.after pulls r) = true := by
+  have hc : (src.after pulls r).closed = false := by
+    cases src with
+    | fin xs tail => cases tail <;> rfl
+    | inf f => rfl
+  simp [checkSource, hc]
+
 /-! ### checker form: a pipeline started at position `p` against the composition over `xs.drop p` -/
 
 theorem checkTake_from (kinds : List Kind) (xs : List V) (tail : Option Err) (fuel k p : Nat)
